@@ -209,3 +209,62 @@ def run_check(pid, tier, seed, replay=None):
         return 2
     finally:
         ctx.cleanup()
+
+
+# ----------------------------------------------------------------------------- parallel replay
+def _worker(args):
+    pid, tier, seed, meta, workdir, fn, chunk, idx = args
+    sub = Ctx.__new__(Ctx)
+    sub.pid, sub.tier, sub.seed, sub.meta = pid, tier, seed, meta
+    sub.rng = random.Random(seed * 1000 + idx)
+    sub.t0 = time.time()
+    sub.workdir = os.path.join(workdir, "w%d_%d" % (idx, os.getpid()))
+    os.makedirs(sub.workdir, exist_ok=True)
+    sub.violations, sub.drifts = [], []
+    sub.cov = {"states": 0, "transitions": 0, "traces_validated_against_impl": 0, "samples": [],
+               "evaluations": 0, "distinct_nontrivial": 0, "rule": "", "tlc_runs": [], "drift": 0}
+    sub._nontrivial = set()
+    sub.assumptions = []
+    sub.findings = []
+    sub.quick = tier == "quick"
+    try:
+        fn(sub, chunk)
+    except MachineryError as e:
+        return {"error": str(e)}
+    except Exception:
+        return {"error": traceback.format_exc()}
+    finally:
+        shutil.rmtree(sub.workdir, ignore_errors=True)
+    return {"violations": sub.violations, "drifts": sub.drifts, "cov": sub.cov, "nontrivial": sub._nontrivial,
+            "assumptions": sub.assumptions}
+
+
+def fork_map(ctx, fn, items, nproc=None, chunks_per_proc=4):
+    """Run fn(subctx, chunk_of_items) in forked workers; merge verdicts and coverage into ctx.
+
+    fn must be a module-level function; call env.init() in the parent first so children inherit the import."""
+    import multiprocessing as mp
+    items = list(items)
+    if not items:
+        return
+    nproc = nproc or min(16, os.cpu_count() or 4)
+    nchunks = max(1, min(len(items), nproc * chunks_per_proc))
+    chunks = [items[i::nchunks] for i in range(nchunks)]
+    args = [(ctx.pid, ctx.tier, ctx.seed, ctx.meta, ctx.workdir, fn, ch, i) for i, ch in enumerate(chunks)]
+    with mp.get_context("fork").Pool(nproc) as pool:
+        results = pool.map(_worker, args, chunksize=1)
+    for r in results:
+        if "error" in r:
+            raise MachineryError("worker failed: " + r["error"][-3000:])
+        ctx.violations.extend(r["violations"])
+        for d in r["drifts"]:
+            if len(ctx.drifts) < 20:
+                ctx.drifts.append(d)
+        for k in ("states", "transitions", "traces_validated_against_impl", "evaluations", "drift"):
+            ctx.cov[k] += r["cov"][k]
+        ctx.cov["tlc_runs"].extend(r["cov"]["tlc_runs"])
+        for s in r["cov"]["samples"]:
+            ctx.sample(s)
+        ctx._nontrivial |= r["nontrivial"]
+        for a in r["assumptions"]:
+            ctx.assume(a)
